@@ -5,7 +5,7 @@
    (H2, H4, H5, H7, H10 in known_findings.json); they involve locks held by dead processes, which this model does not carry. *)
 From Coq Require Import List Arith Bool.
 From LokyV Require Import Lib.LedgerLib Lib.PoolLib Gen.Ledger Gen.Pool Model.Pool Proofs.PoolThm.
-From LokyV Require Proofs.LedgerThm Model.Ledger.
+From LokyV Require Proofs.LedgerThm Model.Ledger Model.Wake Proofs.WakeThm.
 Import ListNotations.
 
 Theorem C01_manager_never_leaves_a_future_unresolved :
@@ -31,6 +31,19 @@ Theorem C01_exits_never_join_a_live_worker :
   /\ LedgerThm.aexec Ledger.normal_exit LedgerThm.top = LedgerThm.mka false false false false.
 Proof. split; [exact LedgerThm.broken_exit_good | exact LedgerThm.normal_exit_good]. Qed.
 Print Assumptions C01_exits_never_join_a_live_worker.
+
+(* the wake-up protocol of submit / cancel / shutdown and the manager (Model/Wake.v; the re-check flag is read off run()): after any
+   history the manager is parked with nothing inside the pool left to wake it only if its table is empty and nobody asked it to
+   stop -- the hang H11 (submit, cancel, shutdown(wait=True)) is the failure of this statement on the pinned source *)
+Theorem C01_no_wake_up_is_lost :
+  forall es, let s := Wake.run es Wake.ws0 in Wake.asleep_for_good s = true -> Wake.shut s = false /\ Wake.in_table s = 0.
+Proof. exact WakeThm.no_wake_up_is_lost. Qed.
+Print Assumptions C01_no_wake_up_is_lost.
+
+Example C01_h11_without_the_recheck :
+  let s := fold_left (Wake.step_with false) [Wake.Mgr; Wake.Submit; Wake.Cancel; Wake.Shutdown; Wake.Mgr; Wake.Mgr; Wake.Mgr; Wake.Mgr; Wake.Mgr] Wake.ws0 in
+  Wake.asleep_for_good s = true /\ Wake.shut s = true.
+Proof. vm_compute. auto. Qed.
 
 Example C01_example :
   let p := run (submit_all ++ submit_all ++ [Complete 0; ShutdownCall false; CheckShut; MgrOp; MgrOp; MgrOp; Complete 1; CheckShut; MgrOp; MgrOp;
